@@ -1,4 +1,4 @@
-import SupervisorModel.Model.Reread
+import SupervisorModel.Lemmas.Reread
 /-
   C15 — reread reports exactly the difference, update converges to the file.
   Property theorems over Model/Reread.lean; the compared attribute lists and class facts (`Sv.Gen.Reread.*`)
@@ -177,5 +177,142 @@ theorem update_sequence (added changed removed : List String) :
   have hf : ∀ l : List String, List.filter (selected []) l = l := by
     intro l; apply List.filter_eq_self.mpr; intro a _; simp [selected]
   simp [updateCalls, hf]
+
+/-! ### convergence of update -/
+
+/-- **update_converges.**  After an unrestricted `supervisorctl update` against a daemon in state `s` whose file now
+    parses to `new` (every stop completes — `stopProcessGroup` of the model):
+    1. the active groups are exactly the groups of the file;
+    2. a group that reread did not report keeps its entry — configuration, processes and pids — untouched;
+    3. a changed or added group is active with the file's configuration and fresh processes (no pid);
+    4. a removed group is gone;
+    5. the configuration last read is the file. -/
+theorem update_converges (s : State) (new : List GConfig) :
+    let d := diffToActive new (s.active.map (·.cfg))
+    let R := d.removed.map (·.name)
+    let C := d.changed.map (·.name)
+    let D := d.added.map (·.name)
+    let fin := doUpdate s new []
+    (∀ n, (fin.find n).isSome = true ↔ inFile new n) ∧
+    (∀ n, n ∉ R → n ∉ C → n ∉ D → fin.find n = s.find n) ∧
+    (∀ n, n ∈ C ∨ n ∈ D → fin.find n = (fileCfg new n).map freshActive) ∧
+    (∀ n, n ∈ R → fin.find n = none) ∧
+    fin.file = new := by
+  intro d R C D fin
+  have key := fun n => (doUpdate_find s new n).1
+  have hR := mem_removed_names s new
+  have hD := mem_added_names s new
+  have hC := mem_changed_names s new
+  refine ⟨?_, ?_, ?_, ?_, (doUpdate_find s new "").2⟩
+  · intro n
+    show ((doUpdate s new []).find n).isSome = true ↔ _
+    rw [key n]
+    by_cases hf : inFile new n
+    · simp only [hf, iff_true]
+      have hFs : ∃ c, fileCfg new n = some c := by
+        cases h : fileCfg new n with
+        | none => exact absurd hf ((fileCfg_none_iff new n).mp h)
+        | some c => exact ⟨c, rfl⟩
+      obtain ⟨c, hc⟩ := hFs
+      have hnR : ¬ n ∈ (diffToActive new (s.active.map (·.cfg))).removed.map (·.name) := fun h => ((hR n).mp h).2 hf
+      by_cases hc' : n ∈ (diffToActive new (s.active.map (·.cfg))).changed.map (·.name)
+      · simp [hc', F, hc]
+      · simp only [hc', hnR, if_false]
+        cases hs : s.find n with
+        | some a => simp
+        | none =>
+          have : n ∈ (diffToActive new (s.active.map (·.cfg))).added.map (·.name) :=
+            (hD n).mpr ⟨hf, (find_none_iff s n).mp hs⟩
+          simp [this, F, hc]
+    · simp only [hf, iff_false, Bool.not_eq_true]
+      have hF : F new n = none := by simp [F, (fileCfg_none_iff new n).mpr hf]
+      have hnC : ¬ n ∈ (diffToActive new (s.active.map (·.cfg))).changed.map (·.name) := fun h => hf (hC n h)
+      simp only [hnC, if_false, hF]
+      by_cases hr : n ∈ (diffToActive new (s.active.map (·.cfg))).removed.map (·.name)
+      · simp [hr]
+      · simp only [hr, if_false]
+        cases hs : s.find n with
+        | none => simp
+        | some a =>
+          exfalso
+          apply hr
+          exact (hR n).mpr ⟨(find_isSome_iff s n).mp (by simp [hs]), hf⟩
+  · intro n h1 h2 h3
+    show (doUpdate s new []).find n = _
+    rw [key n]
+    simp only [show ¬ n ∈ (diffToActive new (s.active.map (·.cfg))).changed.map (·.name) from h2,
+      show ¬ n ∈ (diffToActive new (s.active.map (·.cfg))).removed.map (·.name) from h1,
+      show ¬ n ∈ (diffToActive new (s.active.map (·.cfg))).added.map (·.name) from h3, if_false]
+    cases s.find n <;> rfl
+  · intro n h
+    show (doUpdate s new []).find n = _
+    rw [key n]
+    by_cases hc : n ∈ (diffToActive new (s.active.map (·.cfg))).changed.map (·.name)
+    · simp only [hc, if_true]
+      have hFF : F new n = (fileCfg new n).map freshActive := rfl
+      rw [hFF]
+      cases (fileCfg new n).map freshActive with
+      | some a => rfl
+      | none => simp
+    · have hd : n ∈ (diffToActive new (s.active.map (·.cfg))).added.map (·.name) := h.resolve_left hc
+      obtain ⟨hf, hna⟩ := (hD n).mp hd
+      have hnR : ¬ n ∈ (diffToActive new (s.active.map (·.cfg))).removed.map (·.name) := fun h => ((hR n).mp h).2 hf
+      simp only [hc, hnR, if_false, (find_none_iff s n).mpr hna, hd, if_true]
+      rfl
+  · intro n h
+    show (doUpdate s new []).find n = _
+    rw [key n]
+    obtain ⟨_, hnf⟩ := (hR n).mp h
+    have hnC : ¬ n ∈ (diffToActive new (s.active.map (·.cfg))).changed.map (·.name) := fun h => hnf (hC n h)
+    have hnD : ¬ n ∈ (diffToActive new (s.active.map (·.cfg))).added.map (·.name) := fun h => hnf ((hD n).mp h).1
+    have hR' : n ∈ (diffToActive new (s.active.map (·.cfg))).removed.map (·.name) := h
+    simp only [hnC, hR', hnD, if_false, if_true]
+
+/-- fresh processes have no child: nothing of a changed group's old processes survives -/
+theorem fresh_has_no_children (c : GConfig) : ∀ p ∈ (freshActive c).procs, p.pid = 0 ∧ p.stopped = true := by
+  intro p hp
+  simp only [freshActive, freshProcs, List.mem_map] at hp
+  obtain ⟨q, _, rfl⟩ := hp
+  exact ⟨rfl, rfl⟩
+
+/-- a group is only ever removed with every process stopped (removeProcessGroup's precondition) -/
+theorem remove_requires_stopped (s : State) (g : String) (s' : State) (h : removeProcessGroup s g = (.ok (), s')) :
+    ∃ a, s.find g = some a ∧ ∀ p ∈ a.procs, p.stopped = true := by
+  unfold removeProcessGroup at h
+  cases hf : s.find g with
+  | none => rw [hf] at h; simp at h
+  | some a =>
+    rw [hf] at h
+    dsimp only at h
+    by_cases hany : a.procs.any (fun p => !p.stopped) = true
+    · rw [if_pos hany] at h; simp at h
+    · refine ⟨a, rfl, ?_⟩
+      intro p hp
+      simp only [List.any_eq_true, not_exists, not_and, Bool.not_eq_true, Bool.not_eq_false'] at hany
+      simpa using hany p hp
+
+
+/-! ### non-vacuity of update_converges: one removed, one changed, one untouched, one added group -/
+
+def exP (name cmd : String) : PConfig :=
+  { kind := .process, name, command := cmd, directory := none, umask := none, priority := 999, autostart := true,
+    autorestart := .unexpected, startsecs := 1, startretries := 3, uid := none, stdout_logfile := .auto,
+    stdout_capture_maxbytes := 0, stdout_events_enabled := false, stdout_logfile_backups := 10,
+    stdout_logfile_maxbytes := 52428800, stdout_syslog := false, stderr_logfile := .auto, stderr_capture_maxbytes := 0,
+    stderr_events_enabled := false, stderr_logfile_backups := 10, stderr_logfile_maxbytes := 52428800,
+    stderr_syslog := false, stopsignal := 15, stopwaitsecs := 10, stopasgroup := false, killasgroup := false,
+    exitcodes := [0], redirect_stderr := false, environment := [], serverurl := none }
+def exG (name cmd : String) : GConfig := { kind := .group, name, priority := 999, procs := [exP name cmd] }
+def exRunning (g : GConfig) (pid : Nat) : Active := { cfg := g, procs := g.procs.map fun p => ⟨p.name, pid, false⟩ }
+def exState : State :=
+  { file := [exG "gone" "/bin/g", exG "chg" "/bin/old", exG "keep" "/bin/k"],
+    active := [exRunning (exG "gone" "/bin/g") 11, exRunning (exG "chg" "/bin/old") 12, exRunning (exG "keep" "/bin/k") 13] }
+def exNew : List GConfig := [exG "chg" "/bin/new", exG "keep" "/bin/k", exG "fresh" "/bin/f"]
+
+example : (reloadConfig exState (.ok exNew)).1 = .ok (["fresh"], ["chg"], ["gone"]) := by decide +kernel
+example : (doUpdate exState exNew []).active.map (fun a => (a.cfg.name, a.procs.map (·.pid)))
+    = [("keep", [13]), ("chg", [0]), ("fresh", [0])] := by decide +kernel
+example : (doUpdate exState exNew ["fresh"]).active.map (fun a => (a.cfg.name, a.procs.map (·.pid)))
+    = [("gone", [11]), ("chg", [12]), ("keep", [13]), ("fresh", [0])] := by decide +kernel
 
 end Sv.Props.C15
